@@ -118,6 +118,11 @@ class DFV:
             if idx not in self.cols:
                 raise ev.err(f"column {idx!r} does not exist", n, mod)
             return self.cols[idx]
+        if isinstance(idx, Tup) and all(isinstance(i, str) for i in idx.items) and hasattr(self, "sym_subscript_multi"):
+            for i in idx.items:
+                if i not in self.cols:
+                    raise ev.err(f"column {i!r} does not exist", n, mod)
+            return self.sym_subscript_multi(idx.items)
         raise ev.err("DataFrame subscript", n, mod)
 
     def sym_store(self, ev, idx, v, t, mod):
